@@ -86,6 +86,19 @@ def rule_no_serial_clobber(rep: Report, rule: str, root: Fn) -> int:
     return n
 
 
+def registrations(g: Fn, G: str, d: str):
+    """sites in g that put holder `d` into group `G`: `G.add(d)` or `G = CompositeDisposable(..., d, ...)`"""
+    out = []
+    for a in sites(g):
+        n = a.node
+        if isinstance(n, ast.Call) and dotted(n.func) == f"{G}.add" and [u(v) for v in n.args] == [d]:
+            out.append(a)
+        if isinstance(n, (ast.Assign, ast.AnnAssign)) and n.value is not None and isinstance(n.value, ast.Call) and call_name(n.value) == "CompositeDisposable" \
+                and u(n.targets[0] if isinstance(n, ast.Assign) else n.target) == G and d in [u(v) for v in n.value.args]:
+            out.append(a)
+    return out
+
+
 def rule_registered_before_subscribe(rep: Report, rule: str, root: Fn) -> int:
     """A handler that unregisters its own subscription holder (`G.remove(d)`) requires `G.add(d)` to happen before the
     `.subscribe(` it is passed to: a synchronously terminating sequence otherwise removes the holder before it was
@@ -108,8 +121,7 @@ def rule_registered_before_subscribe(rep: Report, rule: str, root: Fn) -> int:
                         if k.owner(d) is None or g.owner(d) is not k.owner(d) or g.owner(G) is not k.owner(G):
                             continue
                         n += 1
-                        adds = [a for a in sites(g) if isinstance(a.node, ast.Call) and dotted(a.node.func) == f"{G}.add"
-                                and [u(v) for v in a.node.args] == [d]]
+                        adds = registrations(g, G, d)
                         ok = bool(adds) and any(dominates(a, s) for a in adds)
                         rep.ob(rule, g, f"{root.qual}: {G}.add({d}) before `{short(c, 50)}` (its {h.name} does {G}.remove({d}))", ok,
                                f"{g.qual}: the callback `{h.name}` unregisters `{d}` from `{G}`, but `{G}.add({d})` does not happen "
